@@ -31,9 +31,9 @@ type searchObserver struct {
 }
 
 func (o *searchObserver) StoreInnovation(i genetics.Innovation) { o.inns = append(o.inns, i) }
-func (o *searchObserver) Innovations() []genetics.Innovation     { return o.inns }
-func (o *searchObserver) NextInnovationNumber() int64            { o.nextInnov++; return o.nextInnov }
-func (o *searchObserver) NextNodeId() int                        { o.nextNode++; return o.nextNode }
+func (o *searchObserver) Innovations() []genetics.Innovation    { return o.inns }
+func (o *searchObserver) NextInnovationNumber() int64           { o.nextInnov++; return o.nextInnov }
+func (o *searchObserver) NextNodeId() int                       { o.nextNode++; return o.nextNode }
 
 func (o *searchObserver) fresh() *searchObserver {
 	return &searchObserver{nextInnov: o.nextInnov + 1000, nextNode: o.nextNode + 1000}
@@ -174,21 +174,21 @@ type gsState struct {
 
 // gsTransition is what the per-transition oracles see.
 type gsTransition struct {
-	Op       string
-	FitOrder int
-	Before   *GenomeSpec
-	Partner  *GenomeSpec
-	PBefore  *GenomeSpec // partner snapshot before the call
-	After    *GenomeSpec // the operated genome after the call (mutators: same object)
-	OrigPost *GenomeSpec // duplicate/mate: the first parent after the call
-	PartPost *GenomeSpec // mate: the partner after the call
-	Result   *genetics.Genome
-	OK       bool
-	Err      error
-	Regime   string // "shared" (global record) or "fresh" (empty record)
-	G        *genetics.Genome
-	x        *Exec
-	obsDump  func() ([]innovRec, int64, int)
+	Op         string
+	FitOrder   int
+	Before     *GenomeSpec
+	Partner    *GenomeSpec
+	PBefore    *GenomeSpec // partner snapshot before the call
+	After      *GenomeSpec // the operated genome after the call (mutators: same object)
+	OrigPost   *GenomeSpec // duplicate/mate: the first parent after the call
+	PartPost   *GenomeSpec // mate: the partner after the call
+	Result     *genetics.Genome
+	OK         bool
+	Err        error
+	Regime     string // "shared" (global record) or "fresh" (empty record)
+	G          *genetics.Genome
+	x          *Exec
+	obsDump    func() ([]innovRec, int64, int)
 	caseParams *c04Case
 }
 
@@ -210,16 +210,16 @@ type gsConfig struct {
 }
 
 type GenomeSpace struct {
-	c      *Ctx
-	cfg    gsConfig
-	obs    *searchObserver
-	opts   *neat.Options
-	states map[string]*gsState
-	order  []*gsState
-	cnt    map[string]int64
+	c         *Ctx
+	cfg       gsConfig
+	obs       *searchObserver
+	opts      *neat.Options
+	states    map[string]*gsState
+	order     []*gsState
+	cnt       map[string]int64
 	depthDone int
-	start  time.Time
-	trans0 int64
+	start     time.Time
+	trans0    int64
 }
 
 func newGenomeSpace(c *Ctx, cfg gsConfig) *GenomeSpace {
